@@ -31,7 +31,7 @@ MODEL_FIXABLE = ["F10a", "F10b"]
 N_BAD_BODIES = 7                          # harness BAD_BODIES: the pool the abstract malformed frame is drawn from          # findings whose repaired behaviour M can model (CONSTANT Fixed)
 
 LANES = {  # MC_DownlinkRuntime operator -> harness cfg "init"
-    "LaneV": "i0", "LaneM0": {}, "LaneM1": {"k1": "i1"}, "LaneM2": {"k1": "i1", "k2": "i2"},
+    "LaneV": "i0", "LaneNone": None, "LaneM0": {}, "LaneM1": {"k1": "i1"}, "LaneM2": {"k1": "i1", "k2": "i2"},
 }
 
 
@@ -312,6 +312,14 @@ def gen_configs(tier, fixed):
     out.append(("map bad-frame placement exhaustive",
                 consts("map", fixed, SockCap=1, AllowHold=True, MaxCmd=0, MaxSet=0 if q else 1, KeySeq="<- Keys1", Strategies=BOTH, MaxBad=1,
                        MaxSteps=4, InitLane="<- LaneM1", OptSet="<- OptSyncOnly" if q else "<- OptNoKeep"), "bfs", 0))
+    # ONE (thorough: two) later attach(es), with and without SYNC, at every position of the remote's notification
+    # sequence (linked | sync event(s) | synced | later events, each delivered separately), first consumer waiting for synced
+    place = dict(Placement=True, AllowHold=True, MaxCmd=0, MaxSet=1, MaxSteps=8, SockCap=1)
+    three = {} if q else dict(Consumers=core.Raw("{1, 2, 3}"))
+    out.append(("value late-attach placement", consts("value", fixed, **place, **three), "bfs", 0))
+    out.append(("event late-attach placement", consts("value", fixed, InitLane="<- LaneNone", **place, **three), "bfs", 0))
+    out.append(("map late-attach placement", consts("map", fixed, KeySeq="<- Keys1", **place), "bfs", 0))
+    out.append(("mapevent late-attach placement", consts("mapevent", fixed, KeySeq="<- Keys1", **place), "bfs", 0))
     n = 300 if q else 1000
     bad = dict(Strategies=BOTH, MaxBad=2, AllowBadCmd=True, AllowTakeDrop=True)
     out.append(("value deep sim", consts("value", fixed, SockCap=1, AllowEmpty=True, AllowStop=True, AllowHold=True, OptSet="<- OptAll",
@@ -386,7 +394,8 @@ def run(tier, out):
     for gi, (name, c, mode, n) in enumerate(gen_configs(tier, fixed)):
         gwd = os.path.join(wd, "gen%d" % gi)
         if mode == "bfs":
-            r = core.run_tlc("MC_DownlinkRuntime", cfgtext(c, INVS, action_constraints=["DumpOnFinish"]), gwd, workers=1, timeout=2400)
+            r = core.run_tlc("MC_DownlinkRuntime", cfgtext(c, INVS, action_constraints=["DumpOnFinish"]), gwd, workers=1, timeout=2400,
+                             coverage="late-attach" not in name)
         else:
             r = core.run_tlc("MC_DownlinkRuntime", cfgtext(c, INVS, action_constraints=["DumpOnFinish"]), gwd, workers=1, timeout=2400,
                              simulate="num=%d" % n, extra=["-depth", "150", "-seed", str(core.seed() + gi)], coverage=False)
